@@ -352,6 +352,7 @@ structure PGroup (α : Type) where
   titratable : Bool
   excludeCys : Bool
   atom : Nat
+  key : String × Int × String   -- (chain_id, res_num, icode) of the group's atom, what --titrate_only matches
   centre : V3 α
   iaAcid : List Nat
   iaBase : List Nat
@@ -396,8 +397,11 @@ def protTargets (s : St α) (cls : String) (i : Nat) : List Nat :=
 
 def v3 (p : Angle.P3 α) : V3 α := ⟨p.x, p.y, p.z⟩
 
-/-- `Group.__init__` + `Group.setup` + `init_group` for the atom `i` of class `cls`; `none` when `set_center` raises -/
-def mkGroup (P : PP α) (o : Opts) (s : St α) (cls : String) (i : Nat) : Option (St α × PGroup α) :=
+/-- the state after the protonation `setup_atoms` of class `cls` asks for -/
+def setupState (P : PP α) (s : St α) (cls : String) (i : Nat) : St α := (protTargets s cls i).foldl (protonateAtom P) s
+
+/-- the group record and the state `Group.setup` leaves, given what `setup_atoms` found (`r`) in the state `s1` -/
+def buildGroup (P : PP α) (s s1 : St α) (cls : String) (i : Nat) (r : Setup.Res) : St α × PGroup α :=
   let a := at' s i
   let info := infoOf s i
   let type := (Groups.lookup P.T.classType cls).getD ""
@@ -407,38 +411,50 @@ def mkGroup (P : PP α) (o : Opts) (s : St α) (cls : String) (i : Nat) : Option
   let label := labelOf a (if a.terminal != "" then a.terminal else a.resName)
   let charge0 : α := match Groups.lookup P.T.charge type with | some q => P.micro q | none => P.ofInt 0
   let charge : α := match Groups.lookup P.T.ions rt with | some q => P.micro q | none => charge0
+  let ctr := v3 (Setup.centreOf (fun k => let p := (at' s1 k).pos; (⟨p.x, p.y, p.z⟩ : Angle.P3 α)) r.centre)
+  -- set_interaction_atoms: the group type is written on every interaction atom
+  let s2 := (r.acid ++ r.base).foldl (fun s k => s.modify k fun x => { x with gtype := type }) s1
+  let model : Option Int := match Groups.lookup P.T.modelPkas rt with
+    | none => none
+    | some p => some ((Groups.lookup P.T.customPkas (Groups.strip a.resName ++ "-" ++ Groups.strip a.name)).getD p)
+  (s2, { cls, type, resType := rt, label, q := charge, model := (match model with | some m => P.micro m | none => P.ofInt 0),
+         modelSet := model.isSome, titratable := model.isSome && !a.bridged, excludeCys := false, atom := i,
+         key := (a.chain, a.resNum, a.icode), centre := ctr, iaAcid := r.acid, iaBase := r.base, cov := [] })
+
+/-- `Group.__init__` + `Group.setup` for the atom `i` of class `cls`; `none` when `set_center` raises (empty atom list) or the
+    class is unknown to the set-up model -/
+def mkGroupCore (P : PP α) (s : St α) (cls : String) (i : Nat) : Option (St α × PGroup α) :=
   match Setup.clsOf cls with
   | none => none
   | some shape =>
-    let s1 := (protTargets s cls i).foldl (protonateAtom P) s
-    let r := Setup.setupAtoms (view s1) shape i
-    if r.centre.isEmpty then none else
-    let ctr := v3 (Setup.centreOf (fun k => let p := (at' s1 k).pos; (⟨p.x, p.y, p.z⟩ : Angle.P3 α)) r.centre)
-    -- set_interaction_atoms: the group type is written on every interaction atom
-    let s2 := (r.acid ++ r.base).foldl (fun s k => s.modify k fun x => { x with gtype := type }) s1
-    let model : Option Int := match Groups.lookup P.T.modelPkas rt with
+    if (Setup.setupAtoms (view (setupState P s cls i)) shape i).centre.isEmpty then none
+    else some (buildGroup P s (setupState P s cls i) cls i (Setup.setupAtoms (view (setupState P s cls i)) shape i))
+
+/-- `init_group`: with --titrate_only a group of a residue that is not listed is made non-titratable (and a cysteine is left out
+    of the report) -/
+def applyTO (o : Opts) (g : PGroup α) : PGroup α :=
+  match o.titrateOnly with
+  | none => g
+  | some l => if l.contains g.key then g else { g with titratable := false, excludeCys := g.resType == "CYS" }
+
+/-- one atom of the loop of `extract_groups` -/
+def extractStep (P : PP α) (o : Opts) (acc : Option (St α × List (PGroup α))) (i : Nat) : Option (St α × List (PGroup α)) :=
+  match acc with
+  | none => none
+  | some (s, gs) =>
+    match classOfAtom P s i with
+    | (s0, none) => some (s0, gs)
+    | (s0, some cls) =>
+      match mkGroupCore P s0 cls i with
       | none => none
-      | some p => some ((Groups.lookup P.T.customPkas (Groups.strip a.resName ++ "-" ++ Groups.strip a.name)).getD p)
-    let tit0 := model.isSome && !a.bridged
-    let listed := match o.titrateOnly with
-      | none => true
-      | some l => l.contains (a.chain, a.resNum, a.icode)
-    some (s2, { cls, type, resType := rt, label, q := charge, model := (match model with | some m => P.micro m | none => P.ofInt 0),
-                modelSet := model.isSome, titratable := tit0 && listed, excludeCys := !listed && rt == "CYS", atom := i,
-                centre := ctr, iaAcid := r.acid, iaBase := r.base, cov := [] })
+      | some (s1, g) => some (s1, gs ++ [applyTO o g])
+
+/-- the atoms `extract_groups` looks at: the non-hydrogen atoms of the list, in order -/
+def heavyLive (s : St α) : List Nat := (List.range s.size).filter fun i => (at' s i).live && (at' s i).elem != "H"
 
 /-- `extract_groups`: every non-hydrogen atom of the list, in order; `none` when a set-up raises -/
 def extractGroups (P : PP α) (o : Opts) (s : St α) : Option (St α × List (PGroup α)) :=
-  ((List.range s.size).filter fun i => (at' s i).live && (at' s i).elem != "H").foldl (fun acc i =>
-    match acc with
-    | none => none
-    | some (s, gs) =>
-      match classOfAtom P s i with
-      | (s0, none) => some (s0, gs)
-      | (s0, some cls) =>
-        match mkGroup P o s0 cls i with
-        | none => none
-        | some (s1, g) => some (s1, gs ++ [g])) (some (s, []))
+  (heavyLive s).foldl (extractStep P o) (some (s, []))
 
 /-! ### `sort_atoms` -/
 /-- `sort_atoms_key(atom)` -/
